@@ -71,7 +71,7 @@ def worker(ctx):
             wit["original"] = pycommon.describe(S, ca["paths"])
             try:
                 # the rewritten schema is printed with different comment / blank line / semicolon noise
-                cb = sut_compiler.compile_schema(S2, db, langs, rng=rng, emit_kw=dict(semi=0.8, comments=0.6, blanks=0.5, path_style="random"))
+                cb = sut_compiler.compile_schema(S2, db, langs, rng=rng, emit_kw=dict(semi=0.8, comments=0.6, blanks=0.5, path_style="random", compact=0.3))
             except Exception as e:
                 texts = {}
                 for g in S2.all_files():
